@@ -7,7 +7,10 @@ use std::ffi::{c_void, CString};
 use std::io::{Error, ErrorKind};
 use std::mem::size_of;
 use std::path::Path;
+#[cfg(not(clockbound_verif))]
 use std::sync::atomic;
+#[cfg(clockbound_verif)]
+use crate::verif::atomic;
 use std::{fs, ptr};
 
 use std::io::Seek;
@@ -279,6 +282,8 @@ impl ShmWrite for ShmWriter {
             };
             generation.store(gen, atomic::Ordering::Release);
 
+            #[cfg(clockbound_verif)]
+            crate::verif::data_write(self.ceb, ceb);
             self.ceb.write(*ceb);
 
             // Mark the end of the update into the memory segment by incrementing the generation
